@@ -288,13 +288,14 @@ func readAttr(b *bolt.Bucket, attr *metadata.Attr) error {
 			if attr.Xattrs == nil {
 				attr.Xattrs = make(map[string][]byte)
 			}
-			attr.Xattrs[string(v)] = b.Get(bucketKeyXattrValue)
+			// copy: values returned by bolt are only valid during the transaction (they point into the mmap)
+			attr.Xattrs[string(v)] = append([]byte(nil), b.Get(bucketKeyXattrValue)...)
 		case string(bucketKeyXattrsExtra):
 			if err := b.Bucket(k).ForEach(func(k, v []byte) error {
 				if attr.Xattrs == nil {
 					attr.Xattrs = make(map[string][]byte)
 				}
-				attr.Xattrs[string(k)] = v
+				attr.Xattrs[string(k)] = append([]byte(nil), v...)
 				return nil
 			}); err != nil {
 				return err
